@@ -17,6 +17,7 @@ KPQR == {"p", "q", "r"}
 I1 == {"1"}
 I2 == {"1", "2"}
 IB == {"bulk"}
+IS == {"1", "x/1"}
 S0 == {}
 S1 == {"x"}
 UpA == {"A"}
